@@ -60,6 +60,7 @@ pub proof fn lemma_mul_mono(b: Bounds, c: F64)
         &&& (k == 0real ==> rmul(x, k) == 0real)
     },
 {
+    reveal(rmul_s); reveal(rdiv_s);
     let k = rv(c);
     assert forall|x: real| #[trigger] contains(b, x) implies ({
         &&& (k > 0real ==> ext_le(ext_mul(fv(b.lower), fv(c)), Ext::Fin(rmul(x, k))) && ext_le(Ext::Fin(rmul(x, k)), ext_mul(fv(b.upper), fv(c))))
@@ -76,10 +77,11 @@ pub proof fn lemma_mul_mono(b: Bounds, c: F64)
     }
 }
 pub proof fn lemma_div_is_mul(k: real)
-    ensures k != 0real ==> forall|x: real| #[trigger] rmul(x, 1real / k) == rdiv(x, k),
+    ensures k != 0real ==> forall|x: real| #[trigger] rmul(x, rdiv_s(1real, k)) == rdiv(x, k),
 {
+    reveal(rmul_s); reveal(rdiv_s);
     if k != 0real {
-        assert forall|x: real| #[trigger] rmul(x, 1real / k) == rdiv(x, k) by {
+        assert forall|x: real| #[trigger] rmul(x, rdiv_s(1real, k)) == rdiv(x, k) by {
             assert(x * (1real / k) == x / k) by (nonlinear_arith) requires k != 0real;
         }
     }
